@@ -17,9 +17,10 @@ func swarmPool(r *Rand) rt.PoolPolicy {
 // vocab is the per-run vocabulary of validation shapes. Operations of a run are drawn from a small vocabulary with
 // repeats, so that the same pooled objects serve validations whose constraints differ and collide.
 type vocab struct {
-	schemas []vocSchema
-	params  []M
-	headers []M
+	reuseSchemas bool // swarm: operations of this run share parsed schema objects
+	schemas      []vocSchema
+	params       []M
+	headers      []M
 }
 
 type vocSchema struct {
@@ -30,7 +31,7 @@ type vocSchema struct {
 
 func newVocab(g *Gen, nSchemas, nParams, nHeaders int, maxDepth int) *vocab {
 	r := g.r
-	v := &vocab{}
+	v := &vocab{reuseSchemas: r.Chance(400)}
 	suite := SuitePairs()
 	for i := 0; i < nSchemas; i++ {
 		if len(suite) > 0 && r.Chance(400) {
@@ -76,6 +77,9 @@ func (v *vocab) schemaOp(g *Gen, kinds []string) Op {
 	r := g.r
 	vs := pick(r, v.schemas)
 	op := Op{Kind: pick(r, kinds), Schema: vs.text, OrderSeed: orderSeedFor(r)}
+	// a caller keeping its parsed schema around and validating with it again (schemas without $ref: the library expands
+	// references in place, by design)
+	op.ReuseSchema = v.reuseSchemas && !hasRef(vs.text)
 	if r.Chance(850) || vs.m == nil {
 		op.Data = pick(r, vs.instances)
 	} else {
